@@ -12,8 +12,10 @@ On the declaration of `match` that `go/go2lean` regenerated from `match/match.go
 (`tr_match_scalar`), constant strings (`tr_match_const`), the anonymous variable (`tr_match_anon`)
 and a variable that is not bound yet (`tr_match_fresh_var`: the message value is stored under it in
 the bindings map that was passed, which is the one result) — for every message value, heap and
-enough fuel.  The inequality arm is `TrIneq.tr_inequal`.  The arms that recurse (a bound variable,
-maps, arrays) are tied by execution only.
+enough fuel.  The inequality arm is `TrIneq.tr_inequal`.  `tr_match_bound`: a bound variable whose
+value looks like a variable is compared as a constant, any other bound value is used as the pattern
+(`match` calls itself on it with the same message value and bindings) — the clause of the containment
+relation `Sat` for variables.  The map and array arms are tied by execution only.
 -/
 
 namespace Sheens.TrMatch
@@ -165,5 +167,130 @@ theorem tr_match_fresh_var (n : Nat) (g : Env) (H : Heap) (f : GV) (v : String) 
   simp [-callFn, hanon]
   rw [show n + 81 = n + 5 + 76 from rfl, hineq]
   simp [Sheens.TrIneq.ineqResult, indexV, hb, hfree]
+
+/-- a variable that is bound, where the inequality test does not apply: a bound value that looks like
+    a variable is compared as a constant; any other bound value is used as the pattern (`match` calls
+    itself on it, with the same message value and bindings) -/
+theorem tr_match_bound (n : Nat) (g : Env) (H : Heap) (f x : GV) (v : String) (am ab : Nat) (mo bo : MapObj)
+    (hm : heapGet H am = some mo) (hI : mlookup (.str "Inequalities") mo.kvs = some (.bool true))
+    (hb : heapGet H ab = some bo) (hv : isVar v = true) (hanon : isAnon v = false)
+    (hbound : mlookup (.str v) bo.kvs = some x)
+    (hnot : Sheens.TrIneq.inequalG (fudgeG f) bo.kvs v = .notUsing)
+    (RHS : R (List GV × Heap))
+    (hR : (match x with
+       | .str s =>
+         if isVar s then (.ok ([if isStrG (fudgeG f) s then .slice [.ref ab] else .nil, .nil], H) : R (List GV × Heap))
+         else callFn (n + 77) matchProg g ".match" (.ref am) [x, fudgeG f, .ref ab] H
+       | _ => callFn (n + 77) matchProg g ".match" (.ref am) [x, fudgeG f, .ref ab] H) = RHS) :
+    callFn (n + 100) matchProg g ".match" (.ref am) [.str v, f, .ref ab] H = RHS := by
+  have hf1 : ∀ y, callFn (n + 96) matchProg g "fudge" .nil [y] H = .ok ([fudgeG y], H) := fun y => by
+    rw [show n + 96 = (n + 84) + 12 from rfl]; exact tr_fudge _ g y H
+  have hf2 : ∀ y, callFn (n + 95) matchProg g "fudge" .nil [y] H = .ok ([fudgeG y], H) := fun y => by
+    rw [show n + 95 = (n + 83) + 12 from rfl]; exact tr_fudge _ g y H
+  have hineq := Sheens.TrIneq.tr_inequal (n + 5) g H am ab mo bo (fudgeG f) v hm hI hb hv
+  rw [hnot] at hineq
+  rw [show n + 100 = (n + 99) + 1 from rfl]
+  simp only [callFn, find_match]
+  simp [-callFn, -typeOf, matchProg_Mmatch]
+  rw [hf1 (.str v)]
+  simp [-callFn, -typeOf]
+  rw [hf2 f]
+  have hfs : fudgeG (.str v) = .str v := rfl
+  simp [-callFn, hfs]
+  rw [show n + 86 = (n + 66) + 20 from rfl, tr_IsConstant]
+  simp [-callFn, hv]
+  rw [show n + 83 = (n + 73) + 10 from rfl, tr_IsAnonymousVariable]
+  simp [-callFn, hanon]
+  rw [show n + 81 = n + 5 + 76 from rfl, hineq]
+  have hvcall : ∀ s, callFn (n + 76) matchProg g ".IsVariable" (.ref am) [.str s] H = .ok ([.bool (isVar s)], H) := fun s => by
+    rw [show n + 76 = (n + 66) + 10 from rfl]; exact tr_IsVariable _ g (.ref am) s H
+  cases x with
+  | str s =>
+    by_cases hs : isVar s = true
+    · simp only [hs, if_true] at hR
+      simp [-callFn, Sheens.TrIneq.ineqResult, indexV, hb, hbound]
+      rw [hvcall s]
+      generalize fudgeG f = ff at hR ⊢
+      cases ff with
+      | ref a => cases hh : heapGet H a <;> simp [-callFn, hs, hh, isStrG] at hR ⊢ <;> (try exact hR)
+      | str t =>
+        by_cases hst : t = s
+        · subst hst; simp [-callFn, hs, isStrG] at hR ⊢ <;> (try exact hR)
+        · simp [-callFn, hs, hst, isStrG] at hR ⊢ <;> (try exact hR)
+      | _ => simp [-callFn, hs, isStrG] at hR ⊢ <;> (try exact hR)
+    · have hs' : isVar s = false := by simpa using hs
+      simp only [hs', Bool.false_eq_true, if_false] at hR
+      simp [-callFn, Sheens.TrIneq.ineqResult, indexV, hb, hbound]
+      rw [hvcall s]
+      simp [-callFn, hs']
+      refine Eq.trans ?_ hR
+      cases callFn (n + 77) matchProg g ".match" (GV.ref am) [GV.str s, fudgeG f, GV.ref ab] H with
+      | error e => rfl
+      | ok r => obtain ⟨vs, h1⟩ := r; rfl
+  | ref a =>
+    simp only at hR
+    cases hh : heapGet H a <;>
+    · simp [-callFn, Sheens.TrIneq.ineqResult, indexV, hb, hbound, hh]
+      refine Eq.trans ?_ hR
+      cases callFn (n + 77) matchProg g ".match" (GV.ref am) [GV.ref a, fudgeG f, GV.ref ab] H with
+      | error e => rfl
+      | ok r => obtain ⟨vs, h1⟩ := r; rfl
+  | nil =>
+    simp only at hR
+    simp [-callFn, Sheens.TrIneq.ineqResult, indexV, hb, hbound]
+    refine Eq.trans ?_ hR
+    cases callFn (n + 77) matchProg g ".match" (GV.ref am) [GV.nil, fudgeG f, GV.ref ab] H with
+    | error e => rfl
+    | ok r => obtain ⟨vs, h1⟩ := r; rfl
+  | bool b =>
+    simp only at hR
+    simp [-callFn, Sheens.TrIneq.ineqResult, indexV, hb, hbound]
+    refine Eq.trans ?_ hR
+    cases callFn (n + 77) matchProg g ".match" (GV.ref am) [GV.bool b, fudgeG f, GV.ref ab] H with
+    | error e' => rfl
+    | ok r => obtain ⟨vs, h1⟩ := r; rfl
+  | f64 q =>
+    simp only at hR
+    simp [-callFn, Sheens.TrIneq.ineqResult, indexV, hb, hbound]
+    refine Eq.trans ?_ hR
+    cases callFn (n + 77) matchProg g ".match" (GV.ref am) [GV.f64 q, fudgeG f, GV.ref ab] H with
+    | error e' => rfl
+    | ok r => obtain ⟨vs, h1⟩ := r; rfl
+  | int i =>
+    simp only at hR
+    simp [-callFn, Sheens.TrIneq.ineqResult, indexV, hb, hbound]
+    refine Eq.trans ?_ hR
+    cases callFn (n + 77) matchProg g ".match" (GV.ref am) [GV.int i, fudgeG f, GV.ref ab] H with
+    | error e' => rfl
+    | ok r => obtain ⟨vs, h1⟩ := r; rfl
+  | numT t i =>
+    simp only at hR
+    simp [-callFn, Sheens.TrIneq.ineqResult, indexV, hb, hbound]
+    refine Eq.trans ?_ hR
+    cases callFn (n + 77) matchProg g ".match" (GV.ref am) [GV.numT t i, fudgeG f, GV.ref ab] H with
+    | error e' => rfl
+    | ok r => obtain ⟨vs, h1⟩ := r; rfl
+  | slice xs =>
+    simp only at hR
+    simp [-callFn, Sheens.TrIneq.ineqResult, indexV, hb, hbound]
+    refine Eq.trans ?_ hR
+    cases callFn (n + 77) matchProg g ".match" (GV.ref am) [GV.slice xs, fudgeG f, GV.ref ab] H with
+    | error e' => rfl
+    | ok r => obtain ⟨vs, h1⟩ := r; rfl
+  | err e =>
+    simp only at hR
+    simp [-callFn, Sheens.TrIneq.ineqResult, indexV, hb, hbound]
+    refine Eq.trans ?_ hR
+    cases callFn (n + 77) matchProg g ".match" (GV.ref am) [GV.err e, fudgeG f, GV.ref ab] H with
+    | error e' => rfl
+    | ok r => obtain ⟨vs, h1⟩ := r; rfl
+  | other t =>
+    simp only at hR
+    simp [-callFn, Sheens.TrIneq.ineqResult, indexV, hb, hbound]
+    refine Eq.trans ?_ hR
+    cases callFn (n + 77) matchProg g ".match" (GV.ref am) [GV.other t, fudgeG f, GV.ref ab] H with
+    | error e' => rfl
+    | ok r => obtain ⟨vs, h1⟩ := r; rfl
+
 
 end Sheens.TrMatch
